@@ -57,7 +57,7 @@ POINTS = {
                       "a = (u * (r * t - s * s)"),
 }
 REQUIRED_POINTS = list(POINTS)
-REQUIRED_CLAUSES = ["linear==exact", "quadratic==exact", "general==exact",
+REQUIRED_CLAUSES = ["independent-of-other-instances", "linear==exact", "quadratic==exact", "general==exact",
                     "residual-orthogonal", "order-and-form-independent",
                     "general(x2,x,1)==quadratic", "general(x,1)==linear",
                     "corr.range", "corr.collinear==+-1",
@@ -317,6 +317,15 @@ def case_fit(mon, xs, ys, names, pseed):
     mon.check("order-and-form-independent", worst <= 1e-6,
               lambda: dict(case, reference=list(got), other=bad,
                            spread_rel=worst))
+    # the first object, now that the permuted / copied / re-set ones above
+    # have been built and fitted, still gives bit-for-bit what it gave alone
+    try:
+        again = list(lib_fit(cf, names)[1])
+    except Exception as ex:
+        again = repr(ex)
+    mon.check("independent-of-other-instances", again == list(got),
+              lambda: dict(case, alone=list(got),
+                           with_other_instances=again))
     # general fit against the dedicated ones
     if names == ["x2", "x", "1"]:
         try:
